@@ -385,7 +385,7 @@ func runAll(c *run.Ctx) {
 	if c.Batch == 0 && want("fixed") {
 		m.fixedCases()
 	}
-	scale := c.Pick(1, 25)
+	scale := c.Pick(1, 20)
 	if want("value") {
 		sched := schedule()
 		n := 20000 * scale
